@@ -47,6 +47,17 @@ def conforms_py(S, ty, v) -> bool:
         return type(v) is tuple and len(v) == len(ty[1]) and all(conforms_py(S, t, e) for t, e in zip(ty[1], v))
     if k in ("dict", "map", "mmap"):
         return type(v) is dict and all(conforms_py(S, ty[1], a) and conforms_py(S, ty[2], b) for a, b in v.items())
+    # mapping types with a target class of their own: exactly that class (a Converter builds it; a BaseConverter would
+    # return a plain dict -- such types are outside its support and not generated for it); a defaultdict carries the
+    # value type as its default_factory; a Counter counts ints
+    if k == "odict":
+        return (type(v) is collections.OrderedDict
+                and all(conforms_py(S, ty[1], a) and conforms_py(S, ty[2], b) for a, b in v.items()))
+    if k == "ddict":
+        return (type(v) is collections.defaultdict and v.default_factory == S.R.ty(ty[2])
+                and all(conforms_py(S, ty[1], a) and conforms_py(S, ty[2], b) for a, b in v.items()))
+    if k == "counter":
+        return type(v) is collections.Counter and all(conforms_py(S, ty[1], a) and type(b) is int for a, b in v.items())
     if k == "opt":
         return v is None or conforms_py(S, ty[1], v)
     if k in ("new", "ann", "final", "alias"):
@@ -83,56 +94,126 @@ def conforms_py(S, ty, v) -> bool:
     raise ValueError(ty)
 
 
+def missing_key_payloads(chk, S, ty, base):
+    """the valid payload of a class / TypedDict position with each key removed in turn ("missing parts"): a missing
+    required key must be rejected, never defaulted or skipped -- whatever way the class spells requiredness
+    (TypedDict totality, inherited keys of a hierarchy with mixed totality, Required / NotRequired markers, defaults)"""
+    t = gen.strip_wraps(ty)
+    if isinstance(t, str) or t[0] not in ("td", "cls") or base[0] != "d":
+        return []
+    out = []
+    for i in range(len(base[1])):
+        p = ("d", base[1][:i] + base[1][i + 1:])
+        try:
+            pv, p2 = S.realise(p)
+        except Exception:
+            continue
+        if not gen.lookalike_hazard(p2):
+            out.append(("key-removed", p2, pv))
+    return out
+
+
+def run_type(chk, G, S, w, ty, x, xv, corr_fail):
+    has_union = bool(gen.reach_unions(w, ty))
+    enum_lit = gen.has_enum_lit(w, ty)
+    for cfg in CFGS:
+        if not gen.supported(cfg, w, ty):
+            chk.note("unsupported-by-converter-class")
+            continue
+        u = S.impl_un(cfg, ty, x, x=xv)
+        if u[0] != "ok":
+            chk.note("unstructure-failed(skipped)")
+            continue
+        plist = list(streams.payloads(chk, G, S, w, u[1], n_mut=2, n_junk=1))
+        plist += missing_key_payloads(chk, S, ty, u[1])
+        for kind, p, pv in plist:
+            ri = S.impl_st(cfg, ty, p, payload=pv)
+            case = {"world": w, "cfg": cfg, "ty": ty, "payload": p}
+            key = cfg_name(cfg) + terms.ty_sx(ty) + terms.canon_sx(p)
+            chk.count(key, nontrivial=not isinstance(ty, str),
+                      sample={"cfg": cfg_name(cfg), "type": terms.ty_sx(ty), "payload": terms.canon_sx(p), "outcome": ri[0]})
+            chk.note("payload:" + kind, "outcome:" + ri[0], "cfg:" + cfg_name(cfg),
+                     "ty:" + (ty if isinstance(ty, str) else ty[0]))
+            if has_union:
+                chk.note("union-reachable:" + kind + ":" + ri[0])
+            if enum_lit:
+                chk.note("literal-with-enum-members-reachable:" + kind + ":" + ri[0])
+            # ---- oracle: accepted results conform
+            if ri[0] in ("ok", "unrep"):
+                if not conforms_py(S, ty, ri[2] if ri[0] == "ok" else ri[1]):
+                    got = terms.canon_sx(ri[1]) if ri[0] == "ok" else repr(ri[1])[:200]
+                    chk.violation(f"C02 oracle: accepted a non-conforming value {got} "
+                                  f"[{cfg_name(cfg)} {terms.ty_sx(ty)} payload {terms.canon_sx(p)}]", case)
+                    continue
+            if ri[0] == "unrep":
+                continue
+            # ---- correspondence
+            rm = S.model_st(cfg, ty, p)
+            km = reply_kind(rm)
+            if leaf_iterated(w, cfg, ty, p):
+                # a str / bytes payload at an iterating position (iterated into characters / ints)
+                chk.note("str-bytes-iterated:" + ("unmodelled" if km == "unmodelled" else "compared:" + ri[0]))
+            if km == "unmodelled":
+                chk.unmodelled += 1
+                continue
+            oi = ("ok", terms.canon_sx(ri[1])) if ri[0] == "ok" else ("err",)
+            om = ("ok", reply_canon(rm)) if km == "ok" else ("err",)
+            if oi != om:
+                corr_fail.append((case, oi, rm))
+
+
+def replay_target_witness(chk, drv):
+    """theorem C02_baseconverter_target_witness on the real code: `BaseConverter().structure({"a": 1}, OrderedDict[str, int])`
+    returns a plain dict (`_structure_dict`) -- mapping types whose target class is not dict are outside a BaseConverter's
+    support (the scope condition `MapsInScope` of C02_sound; the generator does not produce them for a BaseConverter) --
+    and a Converter returns the OrderedDict / Counter itself (theorem C02_target_class)."""
+    S = Session(drv, {"classes": [], "enums": []})
+    p = ("d", [(("s", "a"), ("i", 1))])
+    for detailed in (True, False):
+        for ty, want in ((("odict", "str", "int"), collections.OrderedDict), (("counter", "str"), collections.Counter)):
+            cb = {"gen": False, "tuple": False, "detailed": detailed, "forbid": False}
+            cg = dict(cb, gen=True)
+            chk.count("target-witness" + terms.ty_sx(ty) + str(detailed), nontrivial=True)
+            rg = S.impl_st(cg, ty, p)
+            if rg[0] != "ok" or type(rg[2]) is not want or not conforms_py(S, ty, rg[2]):
+                chk.violation(f"C02 oracle: Converter.structure({{'a': 1}}, {terms.ty_sx(ty)}) gives {rg[0]} {rg[1]!r:.120} "
+                              f"instead of a {want.__name__} [{cfg_name(cg)}]", {"world": S.world, "cfg": cg, "ty": ty, "payload": p})
+            elif S.model_st(cg, ty, p) != "(ok %s)" % terms.obj_sx(rg[1]):
+                chk.violation(f"correspondence corr:C02:ST broken on the target-class witness: impl={terms.canon_sx(rg[1])} "
+                              f"model={S.model_st(cg, ty, p)} [{cfg_name(cg)} {terms.ty_sx(ty)}]",
+                              {"world": S.world, "cfg": cg, "ty": ty, "payload": p}, found_input=False)
+            if ty[0] != "odict":
+                continue
+            rb = S.impl_st(cb, ty, p)
+            if rb[0] == "ok" and type(rb[2]) is dict and S.model_st(cb, ty, p) == "(ok %s)" % terms.obj_sx(rb[1]):
+                chk.note("witness:baseconverter-returns-plain-dict-for-OrderedDict-reproduced")
+            else:
+                chk.note("witness:baseconverter-target-STALE")
+                print(f"NOTE C02: the BaseConverter target-class witness no longer reproduces ({rb[0]} {rb[1]!r:.80}, model "
+                      f"{S.model_st(cb, ty, p)}): the scope condition `MapsInScope` may have become unnecessary")
+
+
 def run(chk: framework.Check):
     drv = lean.Driver()
-    n_worlds = 120 if chk.tier == "quick" else 1500
+    replay_target_witness(chk, drv)
+    n_worlds = 200 if chk.tier == "quick" else 2500
     corr_fail = []
-    for G, S, w in streams.worlds(chk, drv, n_worlds, unions=True, nt=True, coercible=True, enum_lits=True):
-        for ty, x, xv in streams.typed_values(chk, G, S, w, n_types=4, n_values=1):
-            has_union = bool(gen.reach_unions(w, ty))
-            enum_lit = gen.has_enum_lit(w, ty)
-            for cfg in CFGS:
-                if not gen.supported(cfg, w, ty):
-                    chk.note("unsupported-by-converter-class")
+    for G, S, w in streams.worlds(chk, drv, n_worlds, unions=True, nt=True, coercible=True, enum_lits=True,
+                                   map_targets=True):
+        cases = list(streams.typed_values(chk, G, S, w, n_types=4, n_values=1))
+        # every TypedDict class of the world as a type of its own (the type stream draws class types rarely): the ways of
+        # spelling requiredness (totality, hierarchies of mixed totality, markers) are per class
+        for ci, c in enumerate(w["classes"]):
+            if c["kind"] == "td" and c["fields"]:
+                try:
+                    xv, x = S.realise(G.value(w, ("td", ci), 2, any_stable=True))
+                except Exception:
                     continue
-                u = S.impl_un(cfg, ty, x, x=xv)
-                if u[0] != "ok":
-                    chk.note("unstructure-failed(skipped)")
-                    continue
-                for kind, p, pv in streams.payloads(chk, G, S, w, u[1], n_mut=2, n_junk=1):
-                    ri = S.impl_st(cfg, ty, p, payload=pv)
-                    case = {"world": w, "cfg": cfg, "ty": ty, "payload": p}
-                    key = cfg_name(cfg) + terms.ty_sx(ty) + terms.canon_sx(p)
-                    chk.count(key, nontrivial=not isinstance(ty, str),
-                              sample={"cfg": cfg_name(cfg), "type": terms.ty_sx(ty), "payload": terms.canon_sx(p), "outcome": ri[0]})
-                    chk.note("payload:" + kind, "outcome:" + ri[0], "cfg:" + cfg_name(cfg),
-                             "ty:" + (ty if isinstance(ty, str) else ty[0]))
-                    if has_union:
-                        chk.note("union-reachable:" + kind + ":" + ri[0])
-                    if enum_lit:
-                        chk.note("literal-with-enum-members-reachable:" + kind + ":" + ri[0])
-                    # ---- oracle: accepted results conform
-                    if ri[0] in ("ok", "unrep"):
-                        if not conforms_py(S, ty, ri[2] if ri[0] == "ok" else ri[1]):
-                            got = terms.canon_sx(ri[1]) if ri[0] == "ok" else repr(ri[1])[:200]
-                            chk.violation(f"C02 oracle: accepted a non-conforming value {got} "
-                                          f"[{cfg_name(cfg)} {terms.ty_sx(ty)} payload {terms.canon_sx(p)}]", case)
-                            continue
-                    if ri[0] == "unrep":
-                        continue
-                    # ---- correspondence
-                    rm = S.model_st(cfg, ty, p)
-                    km = reply_kind(rm)
-                    if leaf_iterated(w, cfg, ty, p):
-                        # a str / bytes payload at an iterating position (iterated into characters / ints)
-                        chk.note("str-bytes-iterated:" + ("unmodelled" if km == "unmodelled" else "compared:" + ri[0]))
-                    if km == "unmodelled":
-                        chk.unmodelled += 1
-                        continue
-                    oi = ("ok", terms.canon_sx(ri[1])) if ri[0] == "ok" else ("err",)
-                    om = ("ok", reply_canon(rm)) if km == "ok" else ("err",)
-                    if oi != om:
-                        corr_fail.append((case, oi, rm))
+                if not gen.lookalike_hazard(x):
+                    cases.append((("td", ci), x, xv))
+                    chk.note("typeddict-class-as-type")
+        for ty, x, xv in cases:
+            run_type(chk, G, S, w, ty, x, xv, corr_fail)
     for case, oi, rm in corr_fail[:5]:
         chk.violation(
             f"correspondence corr:C02:ST broken (theorem C02_sound no longer tied to the code): impl={oi} model={rm[:300]} "
@@ -143,6 +224,8 @@ def run(chk: framework.Check):
     # implementation-only extended stream (unions, NamedTuples, registry hooks, one-shot iterables)
     from harness import ext
     ext.run_c02(chk, 150 if chk.tier == "quick" else 1500)
+    # implementation-only: hooks built with generator options (use_alias, include_init_false, override(omit=False / rename))
+    ext.run_genopts(chk, 150 if chk.tier == "quick" else 1500, "C02")
     # implementation-only: Literal[...] over members of mix-in enums, position-wise equal literals in one process
     ext.run_enum_literals(chk, 40 if chk.tier == "quick" else 400, "C02")
     drv.close()
